@@ -60,6 +60,7 @@ def run(p: Project, tier: str) -> Result:
     r.stats['reachable_functions'] = len(reach)
     r.stats['unreachable_functions'] = sorted(f.key for f in p.all_functions() if f.key not in reach)
     check_attributes(p, reach, r)
+    check_initialised_before_read(p, reach, r)
     check_interface(p, reach, r)
     check_progress(p, reach, r)
     check_validations(p, r)
@@ -80,6 +81,47 @@ def class_dispatch_guards(fn):
                 if blk:
                     out.append((blk[0].lineno, max(getattr(x, 'end_lineno', x.lineno) for x in blk)))
     return out
+
+
+def check_initialised_before_read(p, reach, r):
+    """R1b: an attribute that no constructor (nor reset) of a concrete class initialises, and that a method of the class reads before it assigns it,
+    does not exist at the first call of that method (AttributeError) - e.g. an accumulator whose initialisation was dropped from __init__."""
+    n_ok = 0
+    for ci in p.classes.values():
+        if p.subclasses(ci.key):
+            continue
+        init_attrs = set()
+        for c in p.mro(ci.key):
+            for mname in ('__init__', 'reset'):
+                m = c.methods.get(mname)
+                if m:
+                    for n in ast.walk(m.node):
+                        if isinstance(n, ast.Attribute) and isinstance(n.ctx, ast.Store) and isinstance(n.value, ast.Name) and n.value.id == 'self':
+                            init_attrs.add(n.attr)
+        sites = p.self_attr_sites(ci.key)
+        meths = p.methods(ci.key)
+        used = {n.attr for f in meths.values() for n in walk_no_nested(f.node)
+                if isinstance(n, ast.Attribute) and isinstance(n.value, ast.Name) and n.value.id == 'self' and n.attr in meths}
+        for name, fi in meths.items():
+            if fi.key not in reach or name == '__init__' or name not in used:
+                continue
+            first = {}
+            for n in walk_no_nested(fi.node):
+                if isinstance(n, ast.Attribute) and isinstance(n.value, ast.Name) and n.value.id == 'self':
+                    kind = 'w' if isinstance(n.ctx, ast.Store) else 'r'
+                    k = (n.lineno, 1 if kind == 'w' else 0)
+                    if n.attr not in first or k < first[n.attr][0]:
+                        first[n.attr] = (k, kind, n.lineno)
+            for a, (k, kind, line) in sorted(first.items()):
+                if a in init_attrs or a not in sites or any(a in c.methods or a in c.class_attrs for c in p.mro(ci.key)):
+                    continue
+                key = f'{ci.label}.{name}::initialised-before-read(self.{a})'
+                if kind == 'r':
+                    r.fail('C20.R1', key, f'`self.{a}` is read here before anything assigned it: no constructor of {ci.name} initialises it and this method only assigns it '
+                                          f'afterwards - AttributeError at the first call', src(fi.module), line)
+                else:
+                    n_ok += 1
+    r.stats['attributes_assigned_before_read_outside_constructors'] = n_ok
 
 
 def check_attributes(p, reach, r):
